@@ -522,6 +522,8 @@ type FuncSpec struct {
 	Requires  []*Clause
 	Ensures   []*Clause
 	Modifies  []*Clause
+	LockRequires []*Clause
+	LockEnsures  []*Clause
 	Pure      bool
 	Trusted   bool // contract assumed, body not verified (external functions)
 	Lemma     bool
@@ -579,7 +581,7 @@ func NewSpecSet() *SpecSet {
 
 var clauseKeywords = map[string]bool{"requires": true, "ensures": true, "modifies": true, "pure": true, "trusted": true, "lemma": true,
 	"loop": true, "invariant": true, "decreases": true, "callspec": true, "observe": true, "replay": true, "prop": true, "func": true,
-	"sort": true, "fun": true, "ghost": true, "axiom": true, "define": true, "inline": true, "noinline": true, "guarded": true, "flag": true, "loopmodifies": true}
+	"sort": true, "fun": true, "ghost": true, "axiom": true, "define": true, "inline": true, "noinline": true, "guarded": true, "flag": true, "loopmodifies": true, "lockrequires": true, "lockensures": true}
 
 // ParseSpecLines parses the //@ lines of one package (pkgPath is used for type resolution).
 func (ss *SpecSet) ParseSpecLines(lines []SpecLine, pkgPath string, keyPrefix string) error {
@@ -749,7 +751,7 @@ func (ss *SpecSet) ParseSpecLines(lines []SpecLine, pkgPath string, keyPrefix st
 				curCall = &CallSpec{Param: strings.TrimSpace(it.rest)}
 				cur.CallSpecs[curCall.Param] = curCall
 				curLoop = nil
-			case "requires", "ensures", "modifies", "invariant", "decreases", "observe", "loopmodifies":
+			case "requires", "ensures", "modifies", "invariant", "decreases", "observe", "loopmodifies", "lockrequires", "lockensures":
 				texts := []string{it.rest}
 				if it.kw == "modifies" || it.kw == "loopmodifies" || it.kw == "observe" {
 					texts = splitTop(it.rest, ',')
@@ -772,6 +774,10 @@ func (ss *SpecSet) ParseSpecLines(lines []SpecLine, pkgPath string, keyPrefix st
 						} else {
 							cur.Ensures = append(cur.Ensures, c)
 						}
+					case "lockrequires":
+						cur.LockRequires = append(cur.LockRequires, c)
+					case "lockensures":
+						cur.LockEnsures = append(cur.LockEnsures, c)
 					case "modifies":
 						cur.Modifies = append(cur.Modifies, c)
 					case "observe":
